@@ -121,6 +121,11 @@ FORBID = {
     'A \\begin{tabular}[t]{ll} xa & ya \\end{tabular} B': ['t]', 'll', '['],
     'A \\begin{tabular}{|l|r|} xa & ya \\end{tabular} B': ['|l', 'r|'],
     'A \\begin{tabular}[b]{lp{3cm}} xa & ya \\end{tabular} B': ['b]', 'lp', '3cm'],
+    'A \\begin{minipage}[t]{5cm} xa ya \\end{minipage} B': ['t]', '5cm', '['],
+    'A \\begin{minipage}[c][3cm][t]{5cm} xa ya \\end{minipage} B': ['c]', '3cm', 't]', '5cm', '['],
+    'A \\begin{minipage}{0.5\\linewidth} xa ya \\end{minipage} B': ['0.5'],
+    '\\begin{thebibliography}{99}\\bibitem[Kn84]{knuth} xa ya \\bibitem{lamport} B\\end{thebibliography}':
+        ['Kn84', 'knuth', 'lamport', '99', ']'],
 }
 DIRECTED += [(k, {}) for k in FORBID]
 
